@@ -86,6 +86,7 @@ class HandoverServer(threading.Thread):
                         fragment = response[offset:offset + send_miu]
                         if not socket.send(fragment):
                             return  # connection closed
+                    break  # answered, start over with a new request
 
         except nfc.llcp.Error as error:
             (log.debug if error.errno == errno.EPIPE else log.error)(error)
